@@ -442,6 +442,7 @@ func runImpl(c *rig.Ctx, cs Case, rnd func(int) int) (res runResult) {
 	var lastSyncV int64
 	var lastReq *int64
 	hadRemote := false
+	var lastRemote remote.RemoteFlowControlWrapper // the last remote wrapper seen, possibly stopped by now
 	// requests in flight keep the limiter they were handed
 	handles := map[int]flowcontrol.FlowControl{}
 	heldMI := map[int]bool{} // admitted by a remote limiter of type max-in-flight
@@ -508,6 +509,12 @@ func runImpl(c *rig.Ctx, cs Case, rnd func(int) int) (res runResult) {
 				if cache != nil {
 					if rf := cache.FlowControl(); rf != nil {
 						lastRet = rf.SetLimit(remote.VerifAcquireResult(fcName, op.HasReq, i32(op.Tokens), op.Accept, i32(op.Limit), op.Err, op.RT))
+					} else if lastRemote != nil {
+						// A LATE reply: the request was sent under a wrapper that has been stopped meanwhile (global strategy
+						// off, or the schema's type changed). The counter manager's reply goroutine and resetCheck still hold
+						// that wrapper and deliver to it. Nothing observable may change — and nothing may panic, whatever
+						// the local configuration is by now.
+						lastRemote.SetLimit(remote.VerifAcquireResult(fcName, op.HasReq, i32(op.Tokens), op.Accept, i32(op.Limit), op.Err, op.RT))
 					}
 				}
 			case "event":
@@ -573,6 +580,9 @@ func runImpl(c *rig.Ctx, cs Case, rnd func(int) int) (res runResult) {
 					}
 				}
 				hadRemote = remote.VerifHasRemote(cache)
+				if rf := cache.FlowControl(); rf != nil {
+					lastRemote = rf
+				}
 				exists, isNew, ev, ls := remote.VerifCounter(cache)
 				if cs.LateStops && isNew {
 					time.Sleep(time.Millisecond) // whatever was left over has run now
@@ -787,9 +797,8 @@ func evaluate(c *rig.Ctx, cs Case, rnd func(int) int) (*failure, runResult) {
 	if err := c.Model("C09.case", map[string]interface{}{"cfg": cs.Cfg, "ops": cs.Ops, "obs": res.Obs}, &m); err != nil {
 		return &failure{kind: "diff", class: "c09.model-error", what: "model error: " + err.Error()}, res
 	}
-	// judge first: the property on the implementation's own output. When the schema TYPE changes inside the case
-	// (outside the property's quantifier: the remote limiter of the old type stays until the next same-type answer)
-	// only the clauses that do not depend on the remote limiter's size and type are applied.
+	// judge first: the property on the implementation's own output (every clause on every case: a change of the
+	// schema's TYPE stops the remote wrapper, so it is an ordinary reconfiguration)
 	// a panic of the real code: in production it is in the counter manager's reply goroutine, resetCheck, or the
 	// controller's Sync — nothing recovers it, the gateway process dies
 	if res.Panic != "" && !strings.HasPrefix(res.Panic, "harness:") {
@@ -832,9 +841,6 @@ func evaluate(c *rig.Ctx, cs Case, rnd func(int) int) (*failure, runResult) {
 		}
 	}
 	for i, v := range m.VerdictImpl {
-		if cs.KindChange {
-			v = keep(v, "c09.ready-hysteresis", "c09.fallback-choice", "c09.local-limit-not-enforced")
-		}
 		if len(v) > 0 {
 			return &failure{kind: "judge", class: v[0], step: i, impl: res.Obs[i],
 				what: fmt.Sprintf("after op %d (%s): %s; implementation observed %s", i, rig.Canon(cs.Ops[i]), strings.Join(v, ","), rig.Canon(res.Obs[i]))}, res
@@ -909,12 +915,10 @@ func evaluate(c *rig.Ctx, cs Case, rnd func(int) int) (*failure, runResult) {
 		}
 	}
 	// the judge on the model's own observations must be silent too (the theorem, sampled)
-	if !cs.KindChange {
-		for i, v := range m.VerdictModel {
-			if len(v) > 0 {
-				return &failure{kind: "diff", class: "c09.model-judge", step: i, model: m.Model[i],
-					what: fmt.Sprintf("the judge rejects the MODEL's observation after op %d: %s", i, strings.Join(v, ","))}, res
-			}
+	for i, v := range m.VerdictModel {
+		if len(v) > 0 {
+			return &failure{kind: "diff", class: "c09.model-judge", step: i, model: m.Model[i],
+				what: fmt.Sprintf("the judge rejects the MODEL's observation after op %d: %s", i, strings.Join(v, ","))}, res
 		}
 	}
 	return nil, res
@@ -925,18 +929,6 @@ func firstLine(s string) string {
 		return s[:i]
 	}
 	return s
-}
-
-func keep(v []string, classes ...string) []string {
-	var r []string
-	for _, x := range v {
-		for _, c := range classes {
-			if x == c {
-				r = append(r, x)
-			}
-		}
-	}
-	return r
 }
 
 func min64(a, b int64) int64 {
